@@ -46,7 +46,7 @@ func init() {
 		MinEvals:        floor(200000, 3000000),
 		MinDistinct:     floor(8000, 150000),
 		RequiredCells: func(string) []string {
-			return []string{"mut/bitflip", "mut/delete", "mut/insert", "mut/substitute", "mut/field-rewrite", "mut/sig-other-key", "mut/sig-transplant", "mut/sig-truncated", "mut/sig-zeroed", "mut/sig-junk", "mut/sig-junk-on-rewritten-payload", "mut/sig-extended", "mut/sig-by-did-prefix-colliding-key", "mut/header-swap", "mut/header-swap-resigned", "mut/own-header-variant-resigned", "mut/signed-over-dagjson-text", "mut/extra-key-resigned", "mut/other-tag-resigned", "mut/json-field-rewrite", "mut/json-char-edit",
+			return []string{"mut/bitflip", "mut/delete", "mut/insert", "mut/substitute", "mut/field-rewrite", "mut/sig-other-key", "mut/sig-transplant", "mut/sig-truncated", "mut/sig-zeroed", "mut/sig-junk", "mut/sig-junk-on-rewritten-payload", "mut/sig-extended", "mut/sig-by-did-prefix-colliding-key", "mut/header-swap", "mut/header-swap-resigned", "mut/own-header-variant-resigned", "mut/signed-over-dagjson-text", "mut/genuine-envelope-spliced-into-nonce", "mut/extra-key-resigned", "mut/other-tag-resigned", "mut/json-field-rewrite", "mut/json-char-edit",
 				"concurrent", "concurrent/genuine", "concurrent/forged", "concurrent/large", "outcome/rejected", "outcome/accepted-same-content", "base/dlg", "base/inv", "base/ed25519", "base/non-ed25519"}
 		},
 	})
@@ -673,6 +673,42 @@ func runC06(w *mon.W) {
 					}
 				}
 				_ = hn
+			}
+		}
+		// 5c. splices: the genuine signature S and the genuine signed part M, byte for byte, hidden
+		// INSIDE a byte-string field (the nonce, which is encoded last) of a payload the issuer
+		// never signed, with S also in the signature slot - as one string and cut in two
+		// indefinite-length chunks. A verifier that looks for the signed bytes in the received
+		// data instead of re-encoding what it decoded finds S and M there.
+		{
+			sig := b.info.Sig
+			sigHead := cborHead(2, uint64(len(sig)))
+			if len(b.sealed) > 1+len(sigHead)+len(sig) && bytes.Equal(b.sealed[1+len(sigHead):1+len(sigHead)+len(sig)], sig) {
+				encM := b.sealed[1+len(sigHead)+len(sig):]
+				for _, pad := range []int{0, 12} {
+					hidden := append(append(append([]byte{}, gen.Bytes(r, pad)...), sig...), encM...)
+					nv := ref.Bytes(hidden)
+					for _, field := range []string{"aud", "cmd"} {
+						forged := setField(b.env, "nonce", &nv)
+						var fv ref.V
+						if field == "aud" {
+							fv = ref.Str(gen.PickPrincipal(r, 0).DID.String())
+						} else {
+							fv = ref.Str("/")
+						}
+						forged = setField(forged, field, &fv)
+						spEnc, err := ref.EncodeDagCbor(forged.L[1])
+						if err != nil {
+							continue
+						}
+						h := len(sig) / 2
+						chunked := append([]byte{0x5f}, append(append(append(cborHead(2, uint64(h)), sig[:h]...), append(cborHead(2, uint64(len(sig)-h)), sig[h:]...)...), 0xff)...)
+						for _, sigEnc := range [][]byte{append(append([]byte{}, sigHead...), sig...), chunked} {
+							env := append(append([]byte{0x82}, sigEnc...), spEnc...)
+							c06Offer(w, b, "genuine-envelope-spliced-into-nonce", env, "dagcbor", decs)
+						}
+					}
+				}
 			}
 		}
 		// 6. envelope shape edits, re-signed by the issuer
